@@ -337,6 +337,18 @@ func luckyHistory(c *lib.Ctx, r *lib.Rand, capN, pick int, kind int, length int)
 		} else {
 			c.Count("lucky:window:filling")
 		}
+		kk := k
+		if kk > len(w) {
+			kk = len(w)
+		}
+		if kk%2 == 1 {
+			c.Count("lucky:median:odd-count")
+		} else {
+			c.Count("lucky:median:even-count-midpoint")
+		}
+		if k == len(w) {
+			c.Count("lucky:select:pick-equals-window-size")
+		}
 		if k < len(w) {
 			c.Count("lucky:select:sorted-by-delay")
 		} else {
@@ -427,7 +439,7 @@ func ntimedBoundOK(s sample, out int64) (within bool, ok bool) {
 
 // limitsViolated recomputes, from the filter's state before the call, whether the sample
 // violates the learned lower / upper limit (the first statements of Do).
-func limitsViolated(epoch uint64, a [6]float64, s sample) (failLo, failHi bool, navg float64) {
+func limitsViolated(c *lib.Ctx, epoch uint64, a [6]float64, s sample) (failLo, failHi bool, navg float64) {
 	alo, ahi, alolo, ahihi, n := a[0], a[2], a[3], a[4], a[5]
 	if epoch != clk.epoch {
 		alo, ahi, alolo, ahihi, n = 0, 0, 0, 0, 0
@@ -441,6 +453,30 @@ func limitsViolated(epoch uint64, a [6]float64, s sample) (failLo, failHi bool, 
 	if n > 2.0 {
 		ln = math.Sqrt(alolo - alo*alo)
 		hn = math.Sqrt(ahihi - ahi*ahi)
+	}
+	// which side of every comparison of Do this call exercises
+	switch {
+	case a[5] == 19.0 && epoch == clk.epoch:
+		c.Count("ntimed:cmp:navg-reaches-20")
+	case a[5] == 20.0 && epoch == clk.epoch:
+		c.Count("ntimed:cmp:navg-saturated-at-20")
+	}
+	switch n {
+	case 2.0:
+		c.Count("ntimed:cmp:navg=2 (noise still zero)")
+	case 3.0:
+		c.Count("ntimed:cmp:navg=3 (noise on, branches 2/3 still off)")
+	case 4.0:
+		c.Count("ntimed:cmp:navg=4 (first filtered sample possible)")
+	}
+	if ln != ln || hn != hn {
+		c.Count("ntimed:cmp:noise-is-NaN (negative rounded variance)")
+	}
+	if lo == alo-ln*3.0 {
+		c.Count("ntimed:cmp:lo-equals-lower-limit")
+	}
+	if hi == ahi+hn*3.0 {
+		c.Count("ntimed:cmp:hi-equals-upper-limit")
 	}
 	return lo < alo-ln*3.0, hi > ahi+hn*3.0, n
 }
@@ -535,7 +571,7 @@ func ntimedHistory(c *lib.Ctx, r *lib.Rand, kind int, length int) {
 			believed = clk.epoch
 		}
 		pe, pa := client.VerifNtimedState(ntimed)
-		failLo, failHi, navg := limitsViolated(pe, pa, s)
+		failLo, failHi, navg := limitsViolated(c, pe, pa, s)
 		ans := do("flt.ntimed.do " + s.args())
 		out, ok := lib.Ints(ans)
 		if !ok || len(out) != 1 {
@@ -544,6 +580,9 @@ func ntimedHistory(c *lib.Ctx, r *lib.Rand, kind int, length int) {
 		}
 		since++
 		raw := s.off()
+		if out[0] == math.MaxInt64 || out[0] == math.MinInt64 {
+			c.Count("ntimed:cmp:duration-overflow (MinInt64 -> Inv -> MaxInt64)")
+		}
 		early := since < 4
 		inb := !failLo && !failHi
 		switch {
